@@ -129,18 +129,21 @@ async fn run(p: &Program) -> Value {
         let c = "main".to_string();
         let res: Value = match o.op.as_str() {
             "spawn" => {
-                let a = H::<0>::new();
+                let is_default = o.entry.starts_with("spawn_default");
+                // (the Default entry points construct the value themselves)
+                let a = if is_default { None } else { Some(H::<0>::new()) };
+                let a = move || a.expect("actor value");
                 let hd = match o.entry.as_str() {
-                    "spawn" => Hd::Addr(a.spawn()),
-                    "spawn_owning" => Hd::Own(a.spawn_owning()),
+                    "spawn" => Hd::Addr(a().spawn()),
+                    "spawn_owning" => Hd::Own(a().spawn_owning()),
                     "spawn_default" => Hd::Addr(<H<0> as DefaultSpawnable<_>>::spawn_default().unwrap()),
                     "spawn_default_owning" => Hd::Own(<H<0> as DefaultSpawnable<_>>::spawn_owning().unwrap()),
-                    "spawn_on_stream" => Hd::Addr(a.spawn_on_stream(stream(o.items, o.ended)).unwrap()),
-                    "spawn_owning_on_stream" => Hd::Own(a.spawn_owning_on_stream(stream(o.items, o.ended)).unwrap()),
-                    "builder_spawn" => Hd::Addr(hannibal::build(a).bounded(2).spawn()),
-                    "builder_spawn_owning" => Hd::Own(hannibal::build(a).unbounded().recreate_from_default().spawn_owning()),
-                    "builder_stream_spawn" => Hd::Addr(hannibal::build(a).on_stream(stream(o.items, o.ended)).spawn()),
-                    "builder_stream_spawn_owning" => Hd::Own(hannibal::build(a).bounded_on_stream(2, stream(o.items, o.ended)).spawn_owning()),
+                    "spawn_on_stream" => Hd::Addr(a().spawn_on_stream(stream(o.items, o.ended)).unwrap()),
+                    "spawn_owning_on_stream" => Hd::Own(a().spawn_owning_on_stream(stream(o.items, o.ended)).unwrap()),
+                    "builder_spawn" => Hd::Addr(hannibal::build(a()).bounded(2).spawn()),
+                    "builder_spawn_owning" => Hd::Own(hannibal::build(a()).unbounded().recreate_from_default().spawn_owning()),
+                    "builder_stream_spawn" => Hd::Addr(hannibal::build(a()).on_stream(stream(o.items, o.ended)).spawn()),
+                    "builder_stream_spawn_owning" => Hd::Own(hannibal::build(a()).bounded_on_stream(2, stream(o.items, o.ended)).spawn_owning()),
                     e => panic!("entry {e}"),
                 };
                 hs.insert(o.nh.clone(), hd);
